@@ -32,6 +32,10 @@ pub mod port_forwarding;
 pub mod table;
 pub mod traffic;
 pub mod types;
+#[cfg(dswd_vpncloud_verif)]
+pub mod verif;
+#[cfg(dswd_vpncloud_verif)]
+include!(env!("DSWD_VPNCLOUD_VERIF_ENTRY"));
 #[cfg(feature = "wizard")]
 pub mod wizard;
 #[cfg(feature = "websocket")]
@@ -231,6 +235,10 @@ fn run<P: Protocol, S: Socket>(config: Config, socket: S) {
 }
 
 fn main() {
+    #[cfg(dswd_vpncloud_verif)]
+    if let Some(code) = verif_entry::dispatch() {
+        process::exit(code);
+    }
     let args: Args = Args::from_args();
     if args.version {
         println!("VpnCloud v{}", env!("CARGO_PKG_VERSION"));
